@@ -286,7 +286,7 @@ theorem floatStep_eq {g : Graph} (idx : List String) {m : Graph} (hi : TInv m) {
     rw [fmt_zero] at hadd
     have hput : putNode m v 0 r.vtype r.md.tsStrip = m.insNode v (nodeRecOf v 0 r.vtype r.md.tsStrip) := by
       unfold putNode; rw [fmt_zero, if_neg hn]
-    simp only [hc, hn', not_false_eq_true, and_self, if_true, hf, ofOpt, bind, Except.bind, objOfId, p0, hadd, pure,
+    simp only [hc, hn', and_self, hf, ofOpt, bind, Except.bind, objOfId, p0, hadd, pure,
       Except.pure, if_neg hm, hfr, hput]
     exact ⟨_, rfl⟩
 
@@ -305,7 +305,7 @@ theorem tinv_floatPut {g : Graph} (idx : List String) {m : Graph} (hi : TInv m) 
   · exact hi
   · exact tinv_putNode hi hv _ _ _
 
-theorem mem_floatPut_nodes {g : Graph} (idx : List String) {m : Graph} (hi : TInv m) {v : String} (hv : Dom v)
+theorem mem_floatPut_nodes {g : Graph} (idx : List String) {m : Graph} (_hi : TInv m) {v : String} (_hv : Dom v)
     (n : String) : n ∈ (floatPut g idx m v).nodes ↔ n ∈ m.nodes ∨ (v ∉ variables m ∧ n = v) := by
   unfold floatPut; split
   · rename_i h
